@@ -162,6 +162,30 @@ pub fn run_ops(seed: u64, thorough: bool, out: &mut Vec<Value>) {
             out.push(one_eval(name, *op, a, &((&p - a) % &p)));
         }
     }
+    // every operator on the SAME operands back to back, starting with another operator each time (state kept between
+    // evaluations and keyed by the operands alone - e.g. a shift memo that forgets the direction - shows only this way)
+    {
+        let mut pairs: Vec<(BigUint, BigUint)> = Vec::new();
+        for k in [1u32, 3, 63, 64, 65, 128, 253, 254] {
+            pairs.push((rnd(&mut r), BigUint::from(k)));
+            pairs.push((BigUint::from(k) + BigUint::from(5u8), BigUint::from(k)));
+            pairs.push((rnd(&mut r), &p - BigUint::from(k)));
+        }
+        for _ in 0..(if thorough { 400 } else { 30 }) {
+            pairs.push((rnd(&mut r), rnd(&mut r)));
+        }
+        let ops: Vec<_> = OPS.iter().filter(|(n, _)| *n != "Pow").collect();
+        for (n, (a, b)) in pairs.iter().enumerate() {
+            for t in 0..ops.len() {
+                let (name, op) = ops[(n * 7 + t) % ops.len()];
+                out.push(one_eval(name, *op, a, b));
+            }
+            // and the two shifts alternating on one amount
+            for (name, op) in OPS.iter().filter(|(n, _)| *n == "Shl" || *n == "Shr") {
+                out.push(one_eval(name, *op, &(a + BigUint::from(1u8)) , b));
+            }
+        }
+    }
     // unary and ternary operators
     for a in first.iter() {
         let fa = big_fr(a);
